@@ -402,7 +402,13 @@ func ruleC13Order(cx *Ctx) {
 		}
 	})
 	cx.R.Check(d != nil && e != nil && instrDominates(d, e), rule, name, "replay ≺ sweep", cx.P.Pos(maint.Pos()), "draining the write buffer precedes the wheel sweep (a written entry is scheduled before the sweep that must find it)")
-	cx.R.Check(r != nil && e != nil && instrDominates(r, e), rule, name, "task ≺ sweep", cx.P.Pos(maint.Pos()), "the caller's own task is replayed before the wheel sweep")
+	taskFirst := r != nil && e != nil && instrDominates(r, e)
+	if !taskFirst && e != nil {
+		// the task may be handed to a helper (the drain step, say) that runs it: on every path to the sweep the task
+		// reaches runTask, directly or inside a callee that runs its parameter on all of its paths (a nil task excepted)
+		taskFirst = runsTaskBefore(maint, ssa.Value(bparam(maint, 1)), rt, e, 0)
+	}
+	cx.R.Check(taskFirst, rule, name, "task ≺ sweep", cx.P.Pos(maint.Pos()), "the caller's own task is replayed - on every path, by maintenance or a helper it hands the task to - before the wheel sweep")
 	cx.R.Check(d != nil && v != nil && instrDominates(d, v), rule, name, "replay ≺ evict", cx.P.Pos(maint.Pos()), "draining the write buffer precedes evictNodes (C04.setmax)")
 	// the sweep runs against a fresh clock sample
 	okNow := false
@@ -613,4 +619,81 @@ func derivedFrom(v, x ssa.Value, depth int) bool {
 		}
 	}
 	return false
+}
+
+// runsTaskBefore: on every path of fn from its entry to `stop` (nil: to any return) the task value p is handed to
+// runTask - directly, or to a callee of the module that does so on all of its own paths. Paths on which p was tested
+// nil are exempt (there is no task), panicking exits do not count.
+func runsTaskBefore(fn *ssa.Function, p ssa.Value, rt *ssa.Function, stop ssa.Instruction, depth int) bool {
+	if depth > 2 || len(fn.Blocks) == 0 {
+		return false
+	}
+	sat := func(in ssa.Instruction) bool {
+		cc := callCommon(in)
+		if cc == nil {
+			return false
+		}
+		if _, isGo := in.(*ssa.Go); isGo {
+			return false
+		}
+		g := calleeOf(in)
+		if g == nil {
+			return false
+		}
+		for i, a := range cc.Args {
+			if a != p {
+				continue
+			}
+			if origin(g) == origin(rt) {
+				return true
+			}
+			og := origin(g)
+			if og.Pkg != nil && strings.HasPrefix(og.Pkg.Pkg.Path(), modPath) && i < len(og.Params) && runsTaskBefore(og, og.Params[i], rt, nil, depth+1) {
+				return true
+			}
+		}
+		return false
+	}
+	seen := map[*ssa.BasicBlock]bool{}
+	ok := true
+	var walk func(b *ssa.BasicBlock)
+	walk = func(b *ssa.BasicBlock) {
+		if seen[b] || !ok {
+			return
+		}
+		seen[b] = true
+		for _, in := range b.Instrs {
+			if stop != nil && in == stop {
+				ok = false
+				return
+			}
+			if sat(in) {
+				return
+			}
+			switch x := in.(type) {
+			case *ssa.Return:
+				if stop == nil {
+					ok = false
+				}
+				return
+			case *ssa.Panic:
+				return
+			case *ssa.If:
+				if v, isEq, isNil := nilCmp(x.Cond); isNil && v == p {
+					// follow only the edge on which the task exists
+					if isEq {
+						walk(b.Succs[1])
+					} else {
+						walk(b.Succs[0])
+					}
+					return
+				}
+			}
+		}
+		for _, s := range b.Succs {
+			walk(s)
+		}
+	}
+	walk(fn.Blocks[0])
+	return ok
 }
